@@ -29,6 +29,7 @@ type result struct {
 	Proto        string `json:"proto"`
 	Token        string `json:"token,omitempty"`
 	Desig        bool   `json:"designated,omitempty"`
+	Holder       bool   `json:"holder,omitempty"`
 	KeepAlive    bool   `json:"keepalive"`
 	NewConn      bool   `json:"new_conn"`       // first request on its connection
 	ConnAfterSig bool   `json:"conn_after_sig"` // its connection was opened after the signal was sent
